@@ -926,6 +926,8 @@ func runToken(c *Ctx) error {
 			cases = append(cases, runOneVerifyFixed(c, m, d, probe))
 		}
 	}
+	// the same token presented twice, the clock moving in between (once per run: it costs ~2.5 s)
+	cases = append(cases, tokenAging(c, m)...)
 	return diffBatchTol(c, "token", cases, nil, tokTol)
 }
 
